@@ -153,6 +153,7 @@ func genC14(r *rand.Rand, t *Trace, thorough bool) {
 				p.nlist = 4 + r.Intn(5)
 				o.ntrain, o.trainFirst = 10*p.nlist+r.Intn(10), true
 				o.nops = 20 + r.Intn(20)
+				o.dumpBeforeSearch, o.forceStyle = true, -1
 			}
 			if kind == 2 && it%5 == 3 {
 				// flat PQ over mirror-image codewords, queries a few ulps off the mirror plane: two codes whose
